@@ -78,7 +78,7 @@ def check_case(case):
     if case.get("resume"):
         # a resumed search: the solver is BUILT with a small budget, Solve stops on it, then itersLimit of the same parameters
         # object is raised and the search continued
-        run = oc.Run(dict(case, lim=case["resume"]), cap=4 * max(case["lim"], 16) + 64)
+        run = oc.Run(dict(case, lim=case["resume"], eps=case.get("resume_eps", case["eps"])), cap=4 * max(case["lim"], 16) + 64)
     else:
         run = oc.Run(case)
     Mb = None
@@ -87,6 +87,7 @@ def check_case(case):
         if case.get("resume"):
             run.solve()
             run.solver.parameters.itersLimit = case["lim"]
+            run.solver.parameters.eps = case["eps"]         # (also tightened in place when the first phase ran with a looser eps)
         while not run.stopped():
             Mb = float(run.solver.method.M[0])
             if not run.iterate(1):
@@ -213,7 +214,9 @@ def gen(r):
             spec = oc.scale_spec(spec, target / L)
     case = oc.gen_case(r, n=n, spec=spec, eps=r.choice(EPS_BY_DIM[n]), lim=r.choice([400, 1000, 2500]), rr=rr)
     if r.random() < 0.15:
-        case["resume"] = r.choice([1, 2, 3, 5, 8, 13, 30])
+        case["resume"] = r.choice([1, 2, 3, 5, 8, 13, 30, 200])
+        if r.random() < 0.5:
+            case["resume_eps"] = min(0.9, case["eps"] * r.choice([3, 10, 30]))     # the first phase stops on a looser accuracy
     return case
 
 
